@@ -503,6 +503,10 @@ def d4_inplace_metric(ck):
     return len(rets)
 
 
+CONTAINER_CTORS = ('dict', 'list', 'set', 'defaultdict', 'OrderedDict', 'deque', 'Counter', 'WeakValueDictionary',
+                   'WeakKeyDictionary', 'bytearray')
+
+
 def d6_globals(ck, rels):
     rule = 'C19.D6.module-state'
     allowed = {('enspara/util/load.py', '_init'): 'worker-side shared-array hand-over',
@@ -514,8 +518,12 @@ def d6_globals(ck, rels):
         # module-level mutable containers
         containers = set()
         for s in mod.tree.body:
-            if isinstance(s, ast.Assign) and isinstance(s.value, (ast.List, ast.Dict, ast.Set)):
+            if isinstance(s, ast.Assign) and (
+                    isinstance(s.value, (ast.List, ast.Dict, ast.Set, ast.ListComp, ast.DictComp, ast.SetComp)) or
+                    (isinstance(s.value, ast.Call) and (call_name(s.value) or '').split('.')[-1] in CONTAINER_CTORS)):
                 containers.update(target_names(s.targets[0]))
+        # process-lifetime objects that can carry attributes: the module's own functions and classes
+        holders = {q for q in list(mod.functions) + list(mod.classes) if '.' not in q}
         for q, fn in mod.functions.items():
             for g in walk_local(fn):
                 if isinstance(g, ast.Global):
@@ -538,13 +546,368 @@ def d6_globals(ck, rels):
                             tg.value.id in containers and tg.value.id not in locs:
                         n += 1
                         ck.bad(rule, mod, s, q, u(s), 'store into module-level container `%s`' % tg.value.id)
+                    # f.attr = ... / Cls.attr[...] = ... : state parked on a module-level function or class object
+                    b = tg
+                    while isinstance(b, (ast.Subscript, ast.Attribute)):
+                        if isinstance(b, ast.Attribute) and isinstance(b.value, ast.Name) and b.value.id in holders \
+                                and b.value.id not in locs:
+                            n += 1
+                            ck.bad(rule, mod, s, q, u(s), 'store into an attribute of the module-level function / class '
+                                   '`%s`: the object lives as long as the process, so what a call leaves there is '
+                                   'visible to every later call' % b.value.id)
+                            break
+                        b = b.value
                 if isinstance(s, ast.Call) and isinstance(s.func, ast.Attribute) and \
                         isinstance(s.func.value, ast.Name) and s.func.value.id in containers and \
-                        s.func.value.id not in locs and s.func.attr in ('append', 'extend', 'update', 'add', 'pop', 'clear'):
+                        s.func.value.id not in locs and s.func.attr in MUTATING_METHODS:
                     n += 1
                     ck.bad(rule, mod, s, q, u(s), 'mutation of module-level container `%s`' % s.func.value.id)
         ck.ok(rule, mod, None, '%s: module containers %s' % (rel, sorted(containers)), 'no function writes them')
     return n
+
+
+# ---------------------------------------------------------------------------
+# D6 (process level): stateful stream objects that outlive a call
+#
+# A pseudo-random generator, an iterator / counter or an open file advances an
+# internal state every time it is used.  When such an object is created ONCE
+# per process - bound by a module-level statement, by a class-body statement,
+# as the default value of a parameter (evaluated at `def` time), or returned
+# by a memoised (lru_cache / cache) factory - and a function of the package
+# draws from it, the n-th call of that function sees a different state than
+# the first one: the result is a function of the call history, however
+# carefully the object was seeded.  (The same constructor called INSIDE the
+# function gives a fresh, identically seeded object per call and is fine.)
+#
+# Decided by def-use, not by name: the receiver of every method call, the
+# iterable of every loop and the argument of next()/list()/... is traced
+# through the reaching definitions of the function (temporaries, conditional
+# expressions, `a or b`, parameter defaults) to the set of process-lifetime
+# stream objects it MAY denote.  Three-valued: a draw is a VIOLATION; a stream
+# object that escapes into a call / container / return value the rule cannot
+# follow is ANALYSIS-INCOMPLETE; a read of a pure accessor is fine.
+
+RNG_CLASSES = ('RandomState', 'default_rng', 'Generator', 'Random', 'SystemRandom')
+STREAM_EXT = {'itertools.count': 'counter', 'itertools.cycle': 'iterator'}
+STREAM_BUILTINS = {'iter': 'iterator', 'open': 'file handle'}
+# methods that read a stream object without advancing it
+STREAM_ACCESSORS = {'get_state', '__getstate__', '__reduce__', 'tell', 'fileno', 'isatty', 'readable',
+                    'writable', 'seekable'}
+# builtins that consume (part of) an iterator handed to them
+STREAM_CONSUMERS = {'next', 'list', 'tuple', 'set', 'sorted', 'sum', 'min', 'max', 'zip', 'enumerate', 'any', 'all',
+                    'dict', 'frozenset', 'map', 'filter', 'itertools.islice', 'islice', 'np.fromiter'}
+
+
+def _stream_ctor(res, rel, e):
+    """What kind of stateful stream object the expression creates ('pseudo-random generator', ...), else None."""
+    if isinstance(e, ast.GeneratorExp):
+        return 'generator'
+    if not isinstance(e, ast.Call):
+        return None
+    name = call_name(e)
+    if name is None:
+        return None
+    t = res.resolve_dotted(rel, name)
+    if t is None:
+        if name in STREAM_BUILTINS:
+            return STREAM_BUILTINS[name]
+        full = name
+    elif t.kind == 'ext':
+        full = t.ext
+    else:
+        return None
+    parts = full.split('.')
+    if parts[-1] in RNG_CLASSES and 'random' in parts[:-1]:
+        return 'pseudo-random generator'
+    return STREAM_EXT.get(full)
+
+
+def _import_time_bindings(root):
+    """[(name, value expr, stmt)] of the simple bindings a module / class body executes once (not inside defs)."""
+    out = []
+    for s in walk_local(root):
+        if isinstance(s, ast.Assign):
+            for t in s.targets:
+                if isinstance(t, ast.Name):
+                    out.append((t.id, s.value, s))
+                elif isinstance(t, (ast.Tuple, ast.List)) and isinstance(s.value, (ast.Tuple, ast.List)) \
+                        and len(t.elts) == len(s.value.elts):
+                    for te, ve in zip(t.elts, s.value.elts):
+                        if isinstance(te, ast.Name):
+                            out.append((te.id, ve, s))
+        elif isinstance(s, ast.AnnAssign) and s.value is not None and isinstance(s.target, ast.Name):
+            out.append((s.target.id, s.value, s))
+    return out
+
+
+class _Streams:
+    """Process-lifetime stream objects of the package and what an expression inside a function may denote."""
+
+    def __init__(self, repo, res, mods):
+        self.repo, self.res = repo, res
+        self.module = {}        # rel -> {name: (kind, stmt)}
+        self.klass = {}         # (rel, class qualname) -> {attr: (kind, stmt)}
+        self.factory = {}       # (rel, function qualname) -> (kind, return stmt)
+        for mod in mods:
+            tab = {}
+            for name, val, s in _import_time_bindings(mod.tree):
+                kind = _stream_ctor(res, mod.rel, val)
+                if kind is None and isinstance(val, ast.Name) and val.id in tab:
+                    kind = tab[val.id][0]       # module-level alias of an earlier stream object
+                if kind is not None:
+                    tab[name] = (kind, s)
+                else:
+                    tab.pop(name, None)
+            if tab:
+                self.module[mod.rel] = tab
+            for cq, cls in mod.classes.items():
+                ctab = {}
+                for name, val, s in _import_time_bindings(cls):
+                    if mod.parent.get(s) is not cls:
+                        continue
+                    kind = _stream_ctor(res, mod.rel, val)
+                    if kind is not None:
+                        ctab[name] = (kind, s)
+                if ctab:
+                    # an attribute some method rebinds on the instance is (also) per-object state: not decided here
+                    for m in _methods(cls):
+                        me = _receiver(m)
+                        for s in walk_local(m):
+                            if isinstance(s, (ast.Assign, ast.AnnAssign, ast.AugAssign)):
+                                for t in (s.targets if isinstance(s, ast.Assign) else [s.target]):
+                                    if me and _self_attr(t, me) in ctab:
+                                        ctab.pop(_self_attr(t, me))
+                    if ctab:
+                        self.klass[(mod.rel, cq)] = ctab
+            for q, fn in mod.functions.items():
+                if not any(d in MEMO_DECORATORS for d in _decorators(fn)):
+                    continue
+                for r in walk_local(fn):
+                    if isinstance(r, ast.Return) and r.value is not None:
+                        fi = finfo(mod, fn)
+                        try:
+                            v = fi.expand(r.value)
+                        except Exception:
+                            v = r.value
+                        kind = _stream_ctor(res, mod.rel, v)
+                        if kind is not None:
+                            self.factory[(mod.rel, q)] = (kind, r)
+        self.any = bool(self.module or self.klass or self.factory)
+
+    # -- scoping ------------------------------------------------------------
+    def _free(self, mod, fn, name):
+        """`name` read inside fn refers to the module namespace."""
+        f = fn
+        while f is not None:
+            fi = finfo(mod, f)
+            glob = any(isinstance(g, ast.Global) and name in g.names for g in walk_local(f))
+            if name in fi.rd.locals and not glob:
+                return False
+            if glob:
+                return True
+            f = mod.enclosing_function(f)
+        return True
+
+    def _class_of(self, mod, fn):
+        p = mod.parent.get(fn)
+        while p is not None and not isinstance(p, (ast.ClassDef, ast.FunctionDef, ast.AsyncFunctionDef)):
+            p = mod.parent.get(p)
+        if isinstance(p, ast.ClassDef):
+            for cq, c in mod.classes.items():
+                if c is p:
+                    return cq
+        return None
+
+    def denotes(self, mod, fn, e, depth=6, _seen=None):
+        """{(label, kind, origin text)}: process-lifetime stream objects the expression may evaluate to."""
+        out = set()
+        if depth <= 0 or e is None:
+            return out
+        _seen = _seen if _seen is not None else set()
+        if id(e) in _seen:
+            return out
+        _seen.add(id(e))
+        fi = finfo(mod, fn)
+        rel = mod.rel
+        if isinstance(e, ast.IfExp):
+            return self.denotes(mod, fn, e.body, depth - 1, _seen) | self.denotes(mod, fn, e.orelse, depth - 1, _seen)
+        if isinstance(e, ast.BoolOp):
+            for v in e.values:
+                out |= self.denotes(mod, fn, v, depth - 1, _seen)
+            return out
+        if isinstance(e, ast.NamedExpr):
+            return self.denotes(mod, fn, e.value, depth - 1, _seen)
+        if isinstance(e, ast.Name):
+            if self._free(mod, fn, e.id):
+                tab = self.module.get(rel, {})
+                if e.id in tab:
+                    kind, s = tab[e.id]
+                    out.add(('module-level `%s`' % e.id, kind, '%s: %s' % (mod.loc(s), u(s)[:80])))
+                    return out
+                t = self.res.table(rel).get(e.id)
+                if t is not None and t.kind == 'var' and t.qual in self.module.get(t.rel, {}):
+                    kind, s = self.module[t.rel][t.qual]
+                    out.add(('module-level `%s` of %s' % (t.qual, t.rel), kind,
+                             '%s:%s: %s' % (t.rel, getattr(s, 'lineno', '?'), u(s)[:80])))
+                return out
+            if not isinstance(e.ctx, ast.Load):
+                return out
+            try:
+                defs = fi.defs_of_use(e)
+            except Exception:
+                return out
+            for site in defs:
+                if site == 'PARAM':
+                    if fn is fi.fn and e.id in params(fn):
+                        from ..core import param_default
+                        d = param_default(fn, e.id)
+                        kind = _stream_ctor(self.res, rel, d) if d is not None else None
+                        if kind is not None:
+                            out.add(('default value of parameter `%s`' % e.id, kind,
+                                     '%s: %s=%s (evaluated once, when the function is defined)' % (
+                                         mod.loc(d), e.id, u(d)[:60])))
+                        elif isinstance(d, ast.Name):
+                            out |= {(('default value of parameter `%s` = ' % e.id) + l, k, o)
+                                    for l, k, o in self._module_name(mod, d.id)}
+                elif site != 'UNBOUND':
+                    v = fi.def_value(site, e.id)
+                    if v is not None:
+                        out |= self.denotes(mod, fn, v, depth - 1, _seen)
+            return out
+        if isinstance(e, ast.Attribute):
+            base = e.value
+            # self.A / cls.A / ClassName.A with A bound once in the class body
+            cq = self._class_of(mod, fn)
+            if isinstance(base, ast.Name):
+                cands = []
+                if cq is not None and base.id in (params(fn)[:1] or ['']) and base.id in ('self', 'cls'):
+                    cands.append((rel, cq))
+                t = self.res.table(rel).get(base.id) if self._free(mod, fn, base.id) else None
+                if t is not None and t.kind == 'class':
+                    cands.append((t.rel, t.qual))
+                for key in cands:
+                    if e.attr in self.klass.get(key, {}):
+                        kind, s = self.klass[key][e.attr]
+                        out.add(('class attribute `%s.%s`' % (key[1], e.attr), kind,
+                                 '%s:%s: %s' % (key[0], getattr(s, 'lineno', '?'), u(s)[:80])))
+                # module_alias.NAME
+                if t is not None and t.kind == 'mod' and e.attr in self.module.get(t.rel, {}):
+                    kind, s = self.module[t.rel][e.attr]
+                    out.add(('module-level `%s` of %s' % (e.attr, t.rel), kind,
+                             '%s:%s: %s' % (t.rel, getattr(s, 'lineno', '?'), u(s)[:80])))
+            return out
+        if isinstance(e, ast.Call):
+            nm = call_name(e)
+            if nm and (not isinstance(e.func, ast.Name) or self._free(mod, fn, e.func.id)):
+                t = self.res.resolve_dotted(rel, nm)
+                if t is not None and t.kind == 'func' and (t.rel, t.qual) in self.factory:
+                    kind, r = self.factory[(t.rel, t.qual)]
+                    out.add(('memoised factory `%s()`' % nm, kind,
+                             '%s:%s: %s (the decorator keeps the first object it returned)' % (
+                                 t.rel, getattr(r, 'lineno', '?'), u(r)[:80])))
+            return out
+        return out
+
+    def _module_name(self, mod, name):
+        tab = self.module.get(mod.rel, {})
+        if name in tab:
+            kind, s = tab[name]
+            return {('module-level `%s`' % name, kind, '%s: %s' % (mod.loc(s), u(s)[:80]))}
+        return set()
+
+
+def d6_process_streams(ck, mods):
+    """No function draws from a stream object (generator, iterator, file) that lives longer than one call."""
+    rule = 'C19.D6.process-stream'
+    res, _ = shared(ck.repo)
+    mods = [m for m in mods if m.kind == 'py']
+    st = _Streams(ck.repo, res, mods)
+    n = 0
+    for rel, tab in sorted(st.module.items()):
+        for name, (kind, s) in sorted(tab.items()):
+            ck.observe(rule, ck.repo.mod(rel), s, 'module-level %s `%s`' % (kind, u(s)[:80]))
+    for mod in mods:
+        n0 = len(ck.violations) + len(ck.known_hits) + len(ck.incomplete)
+        _streams_in_module(ck, rule, res, st, mod)
+        n += 1
+        if len(ck.violations) + len(ck.known_hits) + len(ck.incomplete) == n0:
+            ck.ok(rule, mod, None, 'functions of %s' % mod.rel,
+                  'no function draws from a pseudo-random generator / iterator / file handle that outlives the call '
+                  '(module-level, class-level, default-argument or memoised; %d such objects in the package)'
+                  % (sum(map(len, st.module.values())) + sum(map(len, st.klass.values())) + len(st.factory)))
+    return n
+
+
+def _streams_in_module(ck, rule, res, st, mod):
+    tab = res.table(mod.rel)
+    interesting = set(st.module.get(mod.rel, {}))
+    interesting |= {k for k, t in tab.items() if t is not None and (
+        (t.kind == 'var' and t.qual in st.module.get(t.rel, {})) or
+        (t.kind == 'mod' and t.rel in st.module) or
+        (t.kind == 'class' and (t.rel, t.qual) in st.klass) or
+        (t.kind == 'func' and (t.rel, t.qual) in st.factory))}
+    has_cls = any(r == mod.rel for r, _ in st.klass)
+    for q, fn in mod.functions.items():
+        defaults = list(fn.args.defaults) + [k for k in fn.args.kw_defaults if k is not None]
+        dflt_stream = any(_stream_ctor(res, mod.rel, d) is not None or
+                          (isinstance(d, ast.Name) and d.id in st.module.get(mod.rel, {})) for d in defaults)
+        if not (dflt_stream or has_cls or any(
+                isinstance(x, ast.Name) and x.id in interesting for x in walk_local(fn))):
+            continue
+        explained = set()
+        drew = []
+
+        def report(node, recv, how):
+            hits = st.denotes(mod, fn, recv)
+            for x in walk_expr(recv):
+                explained.add(id(x))
+            for label, kind, origin in sorted(hits):
+                drew.append(label)
+                ck.bad(rule, mod, node, q, '%s draws from the %s' % (q.split('.')[-1], label),
+                       '`%s` %s a %s that is created once per process (%s) and keeps its state between '
+                       'calls: the n-th call of %s starts from the state the previous calls left behind, so '
+                       'its result depends on how often (and with what) it was called before - not on its '
+                       'arguments alone.  Create the object inside the function (same seed, fresh state) instead'
+                       % (u(node)[:90], how, kind, origin, q))
+
+        for c in walk_local(fn):
+            if isinstance(c, ast.Call):
+                if isinstance(c.func, ast.Attribute) and c.func.attr not in STREAM_ACCESSORS:
+                    report(c, c.func.value, 'calls a state-advancing method of')
+                elif isinstance(c.func, ast.Attribute):
+                    for x in walk_expr(c.func.value):
+                        explained.add(id(x))
+                cn = call_name(c) or ''
+                if cn in STREAM_CONSUMERS or cn.split('.')[-1] in ('islice', 'fromiter'):
+                    for a in c.args:
+                        report(c, a, 'consumes items of')
+            elif isinstance(c, (ast.For, ast.AsyncFor)):
+                report(c.iter, c.iter, 'iterates over')
+            elif isinstance(c, ast.comprehension):
+                report(c.iter, c.iter, 'iterates over')
+        if drew:
+            continue
+        # a stream object that flows somewhere the rule does not follow
+        for x in walk_local(fn):
+            if not (isinstance(x, (ast.Name, ast.Attribute)) and isinstance(x.ctx, ast.Load)) or id(x) in explained:
+                continue
+            if not st.denotes(mod, fn, x):
+                continue
+            p = mod.parent.get(x)
+            if isinstance(p, ast.Attribute):
+                continue        # attribute read / accessor call
+            if isinstance(p, (ast.Compare, ast.If, ast.While, ast.Assert, ast.UnaryOp)):
+                continue        # identity / truth test
+            if isinstance(p, (ast.Assign, ast.AnnAssign)) and p.value is x and all(
+                    isinstance(t, ast.Name) for t in (p.targets if isinstance(p, ast.Assign) else [p.target])):
+                continue        # local alias: its uses are traced through the reaching definitions
+            if isinstance(p, (ast.IfExp, ast.BoolOp, ast.NamedExpr)):
+                continue        # selection between objects: traced where the result is used
+            if isinstance(p, ast.Expr):
+                continue        # bare expression statement
+            ck.missing(rule, '%s %s::%s: the process-lifetime stream object `%s` is passed on (`%s`); whether '
+                       'its state is advanced there is not decided' % (
+                           mod.loc(x), mod.rel, q, u(x), u(mod.enclosing_stmt(x))[:80]))
 
 
 # ---------------------------------------------------------------------------
@@ -886,6 +1249,8 @@ def check(ck):
                  and '/apps/' not in m.rel and '/data/' not in m.rel]
         d4_effects(ck, other, observe_only=True)
     d6_globals(ck, [r for r in ANCHORED if r.endswith('.py')] + ['enspara/util/load.py', 'enspara/util/parallel.py'])
+    ns = d6_process_streams(ck, [m for m in repo.py_modules() if '/apps/' not in m.rel and '/data/' not in m.rel])
+    ck.floor('C19.D6.process-stream', ns, 8, 'modules scanned for draws from process-lifetime stream objects')
     nc = d6_derived_caches(ck, [m.rel for m in repo.py_modules() if '/apps/' not in m.rel])
     ck.floor('C19.D6.derived-cache', nc, 8, 'classes of the package scanned for memoised derived attributes')
     # added after the bug hunt (DESIGN.md 11.2b): iterative eigensolvers must be started from a fixed vector
